@@ -251,6 +251,43 @@ theorem vote_sig_binds {H : Type} (hash : Bytes → H) (hinj : ∀ a b, hash a =
   cases v; cases w
   simp_all
 
+/-! ### certificate compression binds every signed vote field (`types.go:1009`, `blockchain.go:2428`) -/
+
+/-- **expand_compress** — for votes that share round, step, parent hash and voted hash (what a certificate is made
+of), re-expanding the compressed certificate the way `ValidateBlockCert` does gives exactly the votes back: every
+signature keeps ITS OWN `TurnOffline` / `Upgrade`. -/
+theorem expand_compress (parent : Bytes) (r st : Nat) (vh : Bytes) (votes : List VoteM) (hne : votes ≠ [])
+    (h : ∀ v ∈ votes, v.hdr.round = r ∧ v.hdr.step = st ∧ v.hdr.parentHash = parent ∧ v.hdr.votedHash = vh) :
+    expand parent (compress votes) = votes := by
+  cases votes with
+  | nil => exact absurd rfl hne
+  | cons v vs =>
+    obtain ⟨h1, h2, _, h4⟩ := h v (by simp)
+    simp only [compress, expand, List.map_map]
+    have : ∀ w ∈ v :: vs, ((fun s : CertSig => (⟨⟨v.hdr.round, v.hdr.step, parent, v.hdr.votedHash, s.turnOffline, s.upgrade⟩,
+        s.signature⟩ : VoteM)) ∘ fun w : VoteM => (⟨w.hdr.turnOffline, w.hdr.upgrade, w.signature⟩ : CertSig)) w = w := by
+      intro w hw
+      obtain ⟨w1, w2, w3, w4⟩ := h w hw
+      obtain ⟨⟨a, b, c, d, e, f⟩, g⟩ := w
+      simp only at w1 w2 w3 w4
+      simp [Function.comp, h1, h2, h4, w1, w2, w3, w4]
+    rw [List.map_congr_left this]
+    simp
+
+/-- a vote rebuilt with ANOTHER header (e.g. the first vote's flags instead of its own) has another signature hash,
+so its signature recovers an unrelated signer: storing foreign flags next to a signature breaks the certificate -/
+theorem vote_sig_distinguishes {H : Type} (hash : Bytes → H) (hinj : ∀ a b, hash a = hash b → a = b)
+    (v w : VoteSigned) (hne : v ≠ w) :
+    hash (encode voteDataSchema (voteDataMsg v)) ≠ hash (encode voteDataSchema (voteDataMsg w)) :=
+  fun h => hne (vote_sig_binds hash hinj v w h)
+
+/-- a certificate that stores the FIRST vote's flags next to every signature is not a round trip: for the votes
+`(offline = false, sig 1)`, `(offline = true, sig 2)` it re-expands to two `offline = false` votes -/
+example : expand [] ⟨1, 2, [], [⟨false, 0, [1]⟩, ⟨false, 0, [2]⟩]⟩ ≠
+    [⟨⟨1, 2, [], [], false, 0⟩, [1]⟩, ⟨⟨1, 2, [], [], true, 0⟩, [2]⟩] := by decide
+example : expand [] (compress [⟨⟨1, 2, [], [], false, 0⟩, [1]⟩, ⟨⟨1, 2, [], [], true, 7⟩, [2]⟩]) =
+    [⟨⟨1, 2, [], [], false, 0⟩, [1]⟩, ⟨⟨1, 2, [], [], true, 7⟩, [2]⟩] := by decide
+
 /-! ### block hashes (`types.go:683`, `:701`): the hash binds every header field -/
 
 theorem i64Enc_injective {a b : Int} (ha : inI64 a) (hb : inI64 b) (h : i64Enc a = i64Enc b) : a = b := by
